@@ -5,6 +5,8 @@
 name: array_insert
 define: U_INSERT, VA_COMP_KEY, VA_SLOTS_NONNULL, VA_REALLOC_3
 src: array.c
+native: array_vec
+native_includes: array.c
 enforce: spif_array_insert
 backend: sat
 flags: --slice-formula
@@ -15,6 +17,8 @@ loops: 1
 name: array_vector_find
 define: U_VFIND, VA_COMP_KEY, VA_SLOTS_NONNULL, VA_RECORD_LAST
 src: array.c
+native: array_vec
+native_includes: array.c
 enforce: spif_array_vector_find
 backend: sat
 loops: 1
@@ -23,6 +27,8 @@ loops: 1
 name: array_vector_contains
 define: U_VCONTAINS, VA_COMP_KEY, VA_SLOTS_NONNULL, VA_RECORD_LAST
 src: array.c
+native: array_vec
+native_includes: array.c
 enforce: spif_array_vector_contains
 replace: spif_array_vector_find
 backend: sat
@@ -38,7 +44,7 @@ backend: sat
  * (tracked by its old slot vg_k), everything before p is smaller than x, everything from p on is
  * not smaller: the result is ascending again and holds exactly the old elements plus x. */
 static spif_bool_t spif_array_insert(spif_array_t self, spif_obj_t obj)
-__CPROVER_requires(ARRAY_VALID(self) && self->len < VCAPL && VEC_GHOSTS(self, obj) && VEC_SORTED_AT_J(self, 0))
+__CPROVER_requires(ARRAY_VALID_W(self) && self->len < VCAPL && VEC_GHOSTS(self, obj) && VEC_SORTED_AT_J(self, 0))
 __CPROVER_assigns(ARRAY_FRAME(self); vg_exit)
 __CPROVER_frees(self->items)
 __CPROVER_ensures(ARRAY_POST(self))
@@ -60,7 +66,7 @@ void harness(void) { spif_array_t self; spif_obj_t obj = nondet_ptr(); spif_arra
 /* find(x): NULL iff no stored element equals x; a non-NULL result is the slot the search compared
  * last (vg_last_a), and that element equals x.  Boundary s = vg_exit of an unsuccessful search:
  * items[s-1] < x < items[s]; with ascending order instantiated at vg_j = s-1 no slot equals x. */
-#define VFIND_PRE (ARRAY_VALID(self) && VEC_GHOSTS(self, obj) && VEC_SORTED_AT_J(self, 0))
+#define VFIND_PRE (ARRAY_VALID_W(self) && VEC_GHOSTS(self, obj) && VEC_SORTED_AT_J(self, 0))
 #define VFIND_ABSENT (vg_exit != vg_j + 1 || vg_k >= (size_t) self->len || vg_key2 != vg_key1)
 #define VFIND_HIT(r) ((r) == vg_last_a && obj != (spif_obj_t) NULL && ((r) != vg_e2 || vg_k >= (size_t) self->len || vg_key2 == vg_key1))
 static spif_obj_t spif_array_vector_find(spif_array_t self, spif_obj_t obj)
